@@ -275,7 +275,7 @@ def evaluate(root: str) -> Dict[str, Any]:
     sys.path.insert(0, VERIF)
     import importlib
 
-    from sa import AnalysisError
+    from sa import AnalysisError, StructuralViolation
     from sa.context import Context
     from sa.report import _matches, load_known
 
@@ -295,6 +295,8 @@ def evaluate(root: str) -> Dict[str, Any]:
                     fired.setdefault(prop, []).append(r.id)
                 elif len(obs) < r.expect_min:
                     errors.setdefault(prop, []).append(f'{r.id}: instance floor')
+            except StructuralViolation:
+                fired.setdefault(prop, []).append(r.id)
             except AnalysisError as e:
                 errors.setdefault(prop, []).append(f'{r.id}: {str(e)[:160]}')
             except Exception as e:  # noqa: BLE001
